@@ -166,7 +166,7 @@ def run(ctx):
                     one(ctx, fxs[cfg], cfg, json.dumps(e), "names")
     ctx.sample({"bclass": "names", "body": json.dumps({"jsonrpc": "2.0", "method": "sub._hidden", "id": 1})})
     # 2. generated registries: signatures x arities, exception classes
-    for r in range(ctx.pick(6, 200)):
+    for r in range(ctx.pick(16, 200)):
         # C05 states its codes for registries of functions and instances, not custom dispatch functions; an instance
         # routing through its own _dispatch method is an instance: whatever its methods raise is a -32603 naming it,
         # and they run exactly once (unknown names / bad arities are its _dispatch's own failures: -32603)
@@ -198,14 +198,14 @@ def run(ctx):
             cfg = cfgs[m % 2]
             one(ctx, fxs[cfg], cfg, d, "damaged")
     size = reqgen.matrix_size()
-    step = ctx.pick(23, 3)
+    step = ctx.pick(7, 3)
     for idx in range((ctx.seed * 5 + ctx.shard) % step, size, step * ctx.nshards):
         cfg = cfgs[idx % 2]
         one(ctx, fxs[cfg], cfg, json.dumps(reqgen.matrix_entry(idx)), "matrix")
-    for i in range(ctx.pick(800, 80000)):
+    for i in range(ctx.pick(4000, 80000)):
         cfg = rng.choice(cfgs)
         one(ctx, fxs[cfg], cfg, reqgen.random_text(rng), "text")
-    for i in range(ctx.pick(600, 60000)):
+    for i in range(ctx.pick(3000, 60000)):
         cfg = rng.choice(cfgs)
         kinds = [rng.choice(reqgen.ALL_KINDS) for _ in range(rng.randint(1, 5))]
         entries = [reqgen.entry_of(k, rng) for k in kinds]
